@@ -113,6 +113,11 @@ def view(t, depth=0):
         n_ = _const(t[1][1][2][1])
         v = view(t[1][1][2][0], depth + 1)
         return _sub(v, 0, n_) if t[2] == "0" else _sub(v, n_, None)
+    if len(t) == 3 and t[0] == "field" and t[2] in ("0", "1") and isinstance(t[1], tuple) and len(t[1]) == 2 and t[1][0] == "payload" \
+            and _is(t[1][1], "slice::split_first") and len(t[1][1][2]) == 1:
+        # `s.split_first()` on its Some side: (&s[0], &s[1..])
+        v = view(t[1][1][2][0], depth + 1)
+        return _sub(v, 0, 1) if t[2] == "0" else _sub(v, 1, None)
     if t[0] == "subslice_at" and len(t) == 5:
         v = _close(view(t[1], depth + 1))
         if not t[4]:
